@@ -12,7 +12,7 @@
    compares with the implementation. [pre_fix] (all off) is the rule set of the tree BEFORE those
    commits, kept only for the historical refutations. The theorems of Proofs/Ext*.v are stated for
    every rule set and say which switches a bound needs. *)
-From Verif Require Export Sat.
+From Verif Require Export Sat TypeCheck.
 Local Open Scope N_scope.
 
 Record fixes := mkFixes {
@@ -576,3 +576,34 @@ Fixpoint multi_small (m : ms) : bool :=
 Definition ops_covered (fx : fixes) (c : xctx) (m : ms) : bool :=
   match sat_data (ext_of_gen fx c m) with Some d => ast_cms m <=? sd_eops d | None => false end.
 
+
+(* ------------------------------------------------------------------ execution stack depth (Proofs/ExtDepth.v)
+   [dgrow m]: for every successful execution of the encoded script, how far the number of stack +
+   altstack elements can rise above its value at the start of the fragment. *)
+Definition minc_ms (x : ms) : N :=
+  match type_of x with
+  | ROk t => match c_input (t_corr t) with IOne | IOneNonZero | IAnyNonZero => 1 | _ => 0 end
+  | RErr _ => 0
+  end.
+Fixpoint dgrow (m : ms) : N :=
+  match m with
+  | MTrue | MFalse | MPkK _ | MAfter _ | MOlder _ => 1
+  | MPkH _ | MRawPkH _ | MSha256 _ | MHash256 _ | MRipemd160 _ | MHash160 _ => 2
+  | MAlt x | MSwap x | MCheck x | MVerify x | MZeroNotEqual x | MDupIf x | MNonZero x => N.max 1 (dgrow x)
+  | MAndV x y | MOrC x y | MOrI x y => N.max (dgrow x) (dgrow y)
+  | MAndB x y | MOrB x y => N.max (dgrow x) (1 + dgrow y)
+  | MOrD x y => N.max (dgrow x) (N.max (2 - minc_ms x) (dgrow y))
+  | MAndOr a b c => N.max (dgrow a) (N.max (dgrow b) (dgrow c))
+  | MThresh _ xs =>
+    N.max 2 (match xs with
+             | [] => 0
+             | x0 :: rest =>
+               N.max (dgrow x0)
+                     (1 + (fix go (l : list ms) : N := match l with [] => 0 | x :: r => N.max (dgrow x) (go r) end) rest)
+             end)
+  | MMulti _ ks | MSortedMulti _ ks => N.of_nat (length ks) + 2
+  | MMultiA _ _ | MSortedMultiA _ _ => 1
+  end.
+(* the class on which the growth bound is within the library's max_exec_stack_count *)
+Definition depth_covered (fx : fixes) (c : xctx) (m : ms) : bool :=
+  match sat_data (ext_of_gen fx c m) with Some d => dgrow m <=? sd_estack d | None => false end.
